@@ -48,6 +48,9 @@ func pending(en *tl.Engine) {
 			en.CancelPoint(n, q, "Q1", "idle", false)
 			en.Reentrant(n, q)
 		}
+		// wide lanes (beyond a machine word): exact pending with tasks held by the dispatchers of chosen queues
+		en.Wide(72, []int{0, 63, 64, 71})
+		en.Wide(130, []int{0, 63, 64, 129})
 		en.TimeoutRaces(1, 1, 1)
 		en.TimeoutRaces(2, 2, 1)
 		en.RequireTimeoutRace()
